@@ -206,6 +206,64 @@ theorem init_db_exchange (c : Connection S) (rest : Bytes) :
       simp only [Except.map, List.append_assoc, List.cons_append, List.nil_append]
       rfl
 
+/-- **a whole COM_FIELD_LIST exchange**: a payload that does not parse, or a catalog statement the application side rejects →
+    exactly one ERR; otherwise one column definition per row of the catalog's answer, in order, then exactly one terminator
+    (drained) — or, iff the row source raised, exactly one ERR after the definitions sent so far; the sequence reset comes last
+    and the loop goes on -/
+theorem field_list_exchange (c : Connection S) (rest : Bytes) :
+    let c1 : Connection S := { c with _executing := true }
+    match Mimic.Extracted.ParsersCode.parse_com_field_list E c.client_charset rest with
+    | none => command_step E cp pc coldef parse app ur fls fcd other err af c (4 :: rest)
+        = ({ c with _executing := false, out := c.out ++ [Ev.write (err { c with _executing := false }) true, Ev.reset_seq] }, true)
+    | some f =>
+      match app (fls f) with
+      | none => command_step E cp pc coldef parse app ur fls fcd other err af c (4 :: rest)
+          = ({ c with _executing := false, out := c.out ++ [Ev.write (err { c with _executing := false }) true, Ev.reset_seq] }, true)
+      | some rs =>
+        ∃ (a l w fl : Nat),
+          let defs := rs.rows.rows.map (fun r => Ev.write (fcd c.server_charset f.table r) false)
+          command_step E cp pc coldef parse app ur fls fcd other err af c (4 :: rest)
+            = if rs.rows.boom then
+                ({ c with _executing := false,
+                          out := c.out ++ defs ++ [Ev.write (err { c with _executing := false, out := c.out ++ defs }) true, Ev.reset_seq] }, true)
+              else
+                ({ c with _executing := false, out := c.out ++ defs ++ [Ev.write (ok_or_eof c1 a l w fl) true, Ev.reset_seq] }, true) := by
+  intro c1
+  have hu : untranslated.contains (4 : UInt8).toNat = false := by decide
+  have hd : dispatch E cp pc coldef parse app ur fls fcd other c1 (4 : UInt8).toNat rest = (handle_field_list E app fls fcd c1 rest).map some := by
+    simp [dispatch]
+  have hs := handle_field_list_spec E app fls fcd c1 rest
+  have hcs : c1.client_charset = c.client_charset := rfl
+  have hss : c1.server_charset = c.server_charset := rfl
+  rw [hcs] at hs
+  cases hp : Mimic.Extracted.ParsersCode.parse_com_field_list E c.client_charset rest with
+  | none =>
+    rw [hp] at hs; dsimp only at hs ⊢
+    simp only [command_step, hu, Bool.false_eq_true, if_false]
+    rw [hd, hs]
+    simp only [Except.map, List.append_assoc, List.cons_append, List.nil_append]
+    rfl
+  | some f =>
+    rw [hp] at hs; dsimp only at hs ⊢
+    cases ha : app (fls f) with
+    | none =>
+      rw [ha] at hs; dsimp only at hs ⊢
+      simp only [command_step, hu, Bool.false_eq_true, if_false]
+      rw [hd, hs]
+      simp only [Except.map, List.append_assoc, List.cons_append, List.nil_append]
+      rfl
+    | some rs =>
+      rw [ha] at hs; dsimp only at hs ⊢
+      obtain ⟨a, l, w, fl, hs⟩ := hs
+      refine ⟨a, l, w, fl, ?_⟩
+      simp only [command_step, hu, Bool.false_eq_true, if_false]
+      rw [hd, hs, hss]
+      by_cases hb : rs.rows.boom = true
+      · simp only [hb, if_true, Except.map, List.append_assoc, List.cons_append, List.nil_append]
+        rfl
+      · simp only [hb, Bool.false_eq_true, if_false, Except.map, List.append_assoc, List.cons_append, List.nil_append]
+        rfl
+
 /-- the loop, one packet at a time -/
 theorem loop_cons (c : Connection S) (p : Bytes) (ps : List Bytes) :
     command_loop E cp pc coldef parse app ur fls fcd other err af c (p :: ps)
